@@ -85,6 +85,7 @@ static void run_tree(int id, const struct xcase* c, cbor_item_t* it, const unsig
   {                                                                                             \
     static unsigned char D[MAX_SK + 1];                                                         \
     for (size_t i = 0; i < MAX_SK; i++) if (i < (xc)->n) D[i] = (xc)->sk[i] < 0 ? in_u8() : (unsigned char)(xc)->sk[i]; \
+    concretize_widths((xc)->xn, (xc)->nn, D, id); /* serialize_alloc requests `size` bytes: keep that size concrete (a symbolic-size block turns every access into array theory) */ \
     cbor_item_t* it = mk(D);                                                                    \
     run_tree(id, xc, it, D, shared, built);                                                     \
   }
